@@ -409,6 +409,32 @@ static void inference(bool thorough)
     R.sample("{\"base\":\"3x3 shoulder triangles\",\"operator\":\"cap_bounded\",\"e\":0.3,\"ec\":0.8,\"note\":\"every pairwise bounded product is 0: total firing strength 0, gains must stay finite\"}");
 }
 
+// ---------------------------------------------------------------- the dispatcher called again after the parameter array changed in place
+static __attribute__((noinline)) void mf_twice(a_real *p, a_real x, a_real *out)
+{
+    out[0] = a_mf(A_MF_TRI, x, p);
+    out[1] = a_mf(A_MF_TRAP, x, p);
+    out[2] = a_mf(A_MF_GAUSS, x, p + 4);
+    p[0] -= 1; p[1] -= 1; p[2] -= 1; p[3] -= 1; p[5] += 1;
+    out[3] = a_mf(A_MF_TRI, x, p);
+    out[4] = a_mf(A_MF_TRAP, x, p);
+    out[5] = a_mf(A_MF_GAUSS, x, p + 4);
+}
+static void mf_reread()
+{
+    if (R.shard.idx != 0) { return; }
+    a_real p[6] = {0, 1, 2, 4, 1, 0.5}, out[6];
+    a_real *volatile vp = p;
+    mf_twice(vp, (a_real)0.5, out);
+    a_real want[6] = {a_mf_tri((a_real)0.5, 0, 1, 2), a_mf_trap((a_real)0.5, 0, 1, 2, 4), a_mf_gauss((a_real)0.5, 1, (a_real)0.5),
+                      a_mf_tri((a_real)0.5, -1, 0, 1), a_mf_trap((a_real)0.5, -1, 0, 1, 3), a_mf_gauss((a_real)0.5, 1, (a_real)1.5)};
+    for (int i = 0; i < 6; ++i)
+    {
+        ++n_eval;
+        if (out[i] != want[i]) { R.viol("mf|dispatcher|reread", std::string("a_mf called") + (i >= 3 ? " again with the same pointer after the parameter array changed in place" : "") + " returned " + num((double)out[i]) + ", the specific function on the current parameters gives " + num((double)want[i]), "{\"call\":" + std::to_string(i) + "}"); }
+    }
+}
+
 int main(int argc, char **argv)
 {
     vx::Args args(argc, argv);
@@ -416,6 +442,7 @@ int main(int argc, char **argv)
     bool thorough = R.tier == "thorough";
     return vx::run_contained([&] {
         membership(thorough);
+        mf_reread();
         operators();
         inference(thorough);
         R.finish(true, "every listed domain enumerated");
